@@ -253,6 +253,17 @@ theorem foldlM_child_depth (pr : Prims) (is : List Nat) (k c : XKey)
       have := ih k' h
       rw [this, (Bip32.child_depth pr k k' i hk).1, List.length_cons]; omega
 
+/-- **whole paths**: if BIP-0032 defines the private key at the end of the path `is` below `k`
+(`CKDpriv` iterated) and the fold of `Child` returns a key, that key carries exactly the BIP's scalar
+and chain code, and its depth is `k.depth + |is|`.  (With C08 `derivePath_spec` this is
+`DeriveChildFromPath`.) -/
+theorem path_spec_priv (pr : Prims) (ok : PrimsOK pr) (is : List Nat) (k c : XKey) (kn : Nat)
+    (cn : Bytes) (h : WF k) (hp : k.isPrivate = true) (hi : ∀ i ∈ is, i < 2 ^ 32)
+    (hm : is.foldlM (Bip32.child pr) k = .ok c)
+    (hs : Spec.Bip32.ckdPrivPath pr.hmac512 (beNat k.key, k.chainCode) is = some (kn, cn)) :
+    beNat c.key = kn ∧ c.chainCode = cn ∧ c.depth = k.depth + is.length ∧ c.isPrivate = true ∧ WF c :=
+  Bip32.foldlM_child_priv_spec pr ok is k c kn cn h hp hi hm hs
+
 /-! ### non-vacuity -/
 
 private def toy : Prims where
@@ -328,3 +339,4 @@ end GoBk.Props.C04
 #print axioms GoBk.Props.C04.ecPubKey_spec
 #print axioms GoBk.Props.C04.neuter_child_comm
 #print axioms GoBk.Props.C04.foldlM_child_depth
+#print axioms GoBk.Props.C04.path_spec_priv
